@@ -116,6 +116,12 @@ class SgzLoader3d(SgzLoader):
             buffer[buf_start:buf_start + sub_block_size_bytes] = \
                 temp_buf[sub_block_num * sub_block_size_bytes:(sub_block_num + 1) * sub_block_size_bytes]
 
+    @staticmethod
+    def _raise_worker_exceptions(futures):
+        """An exception in a pool worker (e.g. a failed range read) must reach the caller"""
+        for future in futures:
+            future.result()
+
     def clear_cache(self):
         self.read_and_decompress_il_set.cache_clear()
         self.read_and_decompress_xl_set.cache_clear()
@@ -136,9 +142,10 @@ class SgzLoader3d(SgzLoader):
         xl_chunk_increment = self.chunk_bytes * self.shape_pad[1] // 4
         buffer = bytearray(self.chunk_bytes * self.shape_pad[0] // 4)
         with cf.ThreadPoolExecutor(max_workers=self.n_workers) as executor:
-            for chunk_num in range(self.shape_pad[0] // 4):
-                executor.submit(self._insert_chunk_into_buffer, buffer, chunk_num * self.chunk_bytes,
-                                xl_first_chunk_offset + chunk_num * xl_chunk_increment)
+            futures = [executor.submit(self._insert_chunk_into_buffer, buffer, chunk_num * self.chunk_bytes,
+                                       xl_first_chunk_offset + chunk_num * xl_chunk_increment)
+                       for chunk_num in range(self.shape_pad[0] // 4)]
+        self._raise_worker_exceptions(futures)
         return self._decompress(buffer, (self.shape_pad[0], self.blockshape[1], self.shape_pad[2]))
 
     @lru_cache(maxsize=1)
@@ -146,11 +153,12 @@ class SgzLoader3d(SgzLoader):
         zslice_unit_in_block = (zslice_id % self.blockshape[2]) // 4
         buffer = bytearray(self.unit_bytes * (blocks_per_dim[0]) * (blocks_per_dim[1]))
         with cf.ThreadPoolExecutor(max_workers=self.n_workers) as executor:
-            for block_num in range((blocks_per_dim[0]) * (blocks_per_dim[1])):
-                executor.submit(self._insert_unit_into_buffer, buffer, block_num * self.unit_bytes,
-                                zslice_first_block_offset * self.block_bytes
-                                + zslice_unit_in_block * self.unit_bytes
-                                + block_num * self.chunk_bytes)
+            futures = [executor.submit(self._insert_unit_into_buffer, buffer, block_num * self.unit_bytes,
+                                       zslice_first_block_offset * self.block_bytes
+                                       + zslice_unit_in_block * self.unit_bytes
+                                       + block_num * self.chunk_bytes)
+                       for block_num in range((blocks_per_dim[0]) * (blocks_per_dim[1]))]
+        self._raise_worker_exceptions(futures)
         return self._decompress(buffer, (self.shape_pad[0], self.shape_pad[1], 4))
 
     @lru_cache(maxsize=1)
@@ -158,9 +166,10 @@ class SgzLoader3d(SgzLoader):
         sub_block_size_bytes = int((4 * 4 * self.blockshape[1]) * self.rate) // 8
         buffer = bytearray(self.block_bytes * blocks_per_dim[0] * blocks_per_dim[1])
         with cf.ThreadPoolExecutor(max_workers=self.n_workers) as executor:
-            for block_id in range(blocks_per_dim[0]*blocks_per_dim[1]):
-                executor.submit(self._distribute_chunk_into_buffer,
-                                buffer, block_id, blocks_per_dim, sub_block_size_bytes, zslice_first_block_offset)
+            futures = [executor.submit(self._distribute_chunk_into_buffer,
+                                       buffer, block_id, blocks_per_dim, sub_block_size_bytes, zslice_first_block_offset)
+                       for block_id in range(blocks_per_dim[0]*blocks_per_dim[1])]
+        self._raise_worker_exceptions(futures)
         return self._decompress(buffer, (self.shape_pad[0], self.shape_pad[1], 4))
 
     def read_chunk_range(self, min_il, min_xl, min_z, il_units, xl_units, z_units):
@@ -189,11 +198,12 @@ class SgzLoader3d(SgzLoader):
             compressed_len = len(buffer) // il_units
             cube = np.zeros((il_units * 4, xl_units * 4, z_units * 4), dtype='float32')
             with cf.ThreadPoolExecutor(max_workers=psutil.cpu_count(logical=False)) as executor:
-                for unit in range(il_units):
-                    executor.submit(self._decompress_into_array,
-                                    buffer[unit * compressed_len: (unit + 1) * compressed_len],
-                                    (4, xl_units * 4, z_units * 4),
-                                    cube[unit*4: unit*4 + 4, :, :])
+                futures = [executor.submit(self._decompress_into_array,
+                                           buffer[unit * compressed_len: (unit + 1) * compressed_len],
+                                           (4, xl_units * 4, z_units * 4),
+                                           cube[unit*4: unit*4 + 4, :, :])
+                           for unit in range(il_units)]
+            self._raise_worker_exceptions(futures)
             return cube
         else:
             return self._decompress(buffer, (il_units * 4, xl_units * 4, z_units * 4))
